@@ -6,7 +6,7 @@ import hexlib
 from common import hx
 
 ID = "C01"
-LEAN_IMPORTS = ["PyTrie.Props.C01", "PyTrie.Props.C01World", "PyTrie.Props.RawLevel", "PyTrie.Props.NonVacuity", "PyTrie.Props.NonVacuity2", "PyTrie.Props.FreeExec", "PyTrie.Props.HistoryBlocks", "PyTrie.Props.NonVacuity9"]
+LEAN_IMPORTS = ["PyTrie.Props.C01", "PyTrie.Props.C01World", "PyTrie.Props.RawLevel", "PyTrie.Props.NonVacuity", "PyTrie.Props.NonVacuity2", "PyTrie.Props.FreeExec", "PyTrie.Props.HistoryBlocks", "PyTrie.Props.NonVacuity9", "PyTrie.Props.HistoryProgress"]
 THEOREMS = [
     "PyTrie.Props.C01.get_set",
     "PyTrie.Props.C01.get_delete",
@@ -46,6 +46,11 @@ THEOREMS = [
     "PyTrie.Props.NonVacuity9.get_witness_p",
     "PyTrie.Props.NonVacuity9.get_witness_np",
     "PyTrie.Props.NonVacuity9.get_evaluated",
+    "PyTrie.Props.Free.direct_call_progress",
+    "PyTrie.Props.Free.batch_call_progress",
+    "PyTrie.Props.Free.good_of_good'",
+    "PyTrie.Props.Free.history_never_raises",
+    "PyTrie.Props.Free.history_blocks_get'",
 ]
 RULE = ("histories of set/setitem/set-to-empty/delete/delitem and squash_changes batches (committed and aborted) "
         "over crafted and random prefix-sharing key universes (empty key, prefixes, extensions, mid-path "
